@@ -6,9 +6,9 @@ From Cffi Require Import C37.Model.
 Open Scope Z_scope.
 
 (* ---------- the regenerated close paths do what the model of close relies on *)
-Lemma inline_sets_null_ok : inline_sets_null = true. Proof. reflexivity. Qed.
+Lemma inline_sets_null_ok au : inline_sets_null au = true. Proof. destruct au; reflexivity. Qed.
 Lemma inline_clears_ok : inline_clears = true. Proof. reflexivity. Qed.
-Lemma ool_sets_null_ok : ool_sets_null = true. Proof. reflexivity. Qed.
+Lemma ool_sets_null_ok au : ool_sets_null au = true. Proof. destruct au; reflexivity. Qed.
 Lemma ool_clears_ok : ool_clears = true. Proof. reflexivity. Qed.
 Lemma unchecked_ok m : unchecked m = false. Proof. destruct m; reflexivity. Qed.
 Ltac genfacts := rewrite ?inline_sets_null_ok, ?inline_clears_ok, ?ool_sets_null_ok, ?ool_clears_ok in *.
@@ -76,7 +76,7 @@ Lemma step_lib_refines d m L o m' L' r :
   spec_lib d m (abs_lib L) o = (m', abs_lib L', r) /\ Inv_lib L' /\ lmode L' = lmode L.
 Proof.
   intros HI H. unfold Inv_lib in *.
-  destruct L as [md op dict props addr]; cbn [lmode lopen ldict lprops laddr] in *.
+  destruct L as [md au op dict props addr]; cbn [lmode lopen ldict lprops laddr] in *.
   destruct o; cbn [step_lib spec_lib] in *; genfacts;
     unfold fetch_fn, ool_globsupport, inline_prop, with_props, with_dict, with_addr, abs_lib in *; usablefacts;
     cbn [lmode lopen ldict lprops laddr amode aopen ataken] in *;
@@ -153,7 +153,7 @@ Lemma closed_lib_refuses d m L o m' L' r :
   refusal (lmode L) r /\ m' = m /\ lopen L' = false.
 Proof.
   intros HI Ho Ht H. specialize (HI Ho). unfold refusal.
-  destruct L as [md op dict props addr]; cbn [lmode lopen ldict lprops laddr] in *; subst op.
+  destruct L as [md au op dict props addr]; cbn [lmode lopen ldict lprops laddr] in *; subst op.
   destruct o; try discriminate; cbn [step_lib] in H;
     unfold fetch_fn, ool_globsupport, inline_prop, with_props, with_dict, with_addr in *; usablefacts;
     cbn [lmode lopen ldict lprops laddr] in *;
@@ -168,7 +168,7 @@ Lemma closed_lib_refuses_addr d m L l v m' L' r :
   refusal (lmode L) r /\ m' = m /\ lopen L' = false /\ laddr L' = laddr L.
 Proof.
   intros HI Ho Ha H. specialize (HI Ho). unfold refusal.
-  destruct L as [md op dict props addr]; cbn [lmode lopen ldict lprops laddr] in *; subst op.
+  destruct L as [md au op dict props addr]; cbn [lmode lopen ldict lprops laddr] in *; subst op.
   cbn [step_lib] in H;
     unfold fetch_fn, ool_globsupport, inline_prop, with_props, with_dict, with_addr in *; usablefacts;
     cbn [lmode lopen ldict lprops laddr] in *;
@@ -183,7 +183,7 @@ Lemma closed_stays d m L o m' L' r :
   lopen L' = false /\ laddr L' = laddr L.
 Proof.
   intros Ho H.
-  destruct L as [md op dict props addr]; cbn [lmode lopen ldict lprops laddr] in *; subst op.
+  destruct L as [md au op dict props addr]; cbn [lmode lopen ldict lprops laddr] in *; subst op.
   destruct o; cbn [step_lib] in H; genfacts;
     unfold fetch_fn, ool_globsupport, inline_prop, with_props, with_dict, with_addr in *; usablefacts;
     cbn [lmode lopen ldict lprops laddr] in *;
@@ -255,8 +255,8 @@ Qed.
 
 (* After dlclose(lib l), at any later point of any history, every read, write, function fetch
    and call through lib l is refused and leaves the library's memory untouched. *)
-Theorem after_close_refused d m0 modes h1 l h2 o md :
-  nth_error modes l = Some md -> op_lib o = l -> touches o = true ->
+Theorem after_close_refused d m0 modes h1 l h2 o md au0 :
+  nth_error modes l = Some (md, au0) -> op_lib o = l -> touches o = true ->
   let s := fst (run d (init m0 modes) (h1 ++ OpClose l :: h2)) in
   refusal md (snd (step d s o)) /\ mem (fst (step d s o)) = mem s.
 Proof.
@@ -295,7 +295,7 @@ Lemma closed_lib_refuses_declared d m L o m' L' r :
   step_lib d m L o = (m', L', r) -> r = OErr (closed_exn (lmode L)).
 Proof.
   intros HI Ho Ht Hd H. specialize (HI Ho).
-  destruct L as [md op dict props addr]; cbn [lmode lopen ldict lprops laddr] in *; subst op.
+  destruct L as [md au op dict props addr]; cbn [lmode lopen ldict lprops laddr] in *; subst op.
   destruct o; try discriminate; cbn [step_lib declared] in *;
     unfold fetch_fn, ool_globsupport, inline_prop, with_props, with_dict, with_addr in *; usablefacts;
     cbn [lmode lopen ldict lprops laddr] in *;
@@ -355,7 +355,7 @@ Lemma step_lib_open_status d m L o m' L' r :
   (forall l, o <> OpClose l) -> step_lib d m L o = (m', L', r) -> lopen L' = lopen L.
 Proof.
   intros Hn H.
-  destruct L as [md op dict props addr]; cbn [lmode lopen ldict lprops laddr] in *.
+  destruct L as [md au op dict props addr]; cbn [lmode lopen ldict lprops laddr] in *.
   destruct o; cbn [step_lib] in H; genfacts;
     unfold fetch_fn, ool_globsupport, inline_prop, with_props, with_dict, with_addr in *; usablefacts;
     cbn [lmode lopen ldict lprops laddr] in *;
@@ -408,8 +408,8 @@ Proof.
   change s2 with (fst (s2, rs)). rewrite <- Hr. apply IH. eapply step_keeps_closed_addr; eauto.
 Qed.
 
-Theorem after_close_addr_refused d m0 modes h1 l h2 v md L1 :
-  nth_error modes l = Some md ->
+Theorem after_close_addr_refused d m0 modes h1 l h2 v md au0 L1 :
+  nth_error modes l = Some (md, au0) ->
   let s1 := fst (run d (init m0 modes) (h1 ++ [OpClose l])) in
   nth_error (libs s1) l = Some L1 -> mem_in v (laddr L1) = false ->
   let s := fst (run d s1 h2) in
